@@ -110,22 +110,24 @@ def mode_order_rules(ctx):
         tag = "Vec" if "Vec" in pat else "slice"
         bad = [M.short_name(M.call_name(t)) for bb, t in fn.calls(ORDER_BREAKERS)]
         ctx.ob("C06.i", "modes-compiled-in-list-order:%s" % tag, not bad, "reordering/filtering calls: %s" % bad, fn.loc())
-        ex, paths = run_fn(fn, F, Model(), max_paths=5000)
+        ex, paths = run_fn(fn, F, Model(), max_paths=5000, desugar=r".|collect")
         n_iter = 0
         vec = None
         for p in paths:
             cm = p.calls(r"CompiledScannerMode::try_from_scanner_mode$")
             pu = p.calls(r"Vec::<.*CompiledScannerMode>::push$")
-            if cm and pu:
+            ci = [e for e in p.events if e[0] == "collect-item"]      # map(..).collect::<Result<Vec<_>>>() analysed as the loop
+            if cm and (pu or ci):
                 n_iter += 1
                 item = S.fstr(cm[0][3][0])
-                ok = len(cm) == 1 and len(pu) == 1 and pu[0][3][1] == ("field", ("downcast", cm[0][4], "Ok"), "0") and "item@" in item
-                vec = pu[0][3][0]
-                ctx.ob("C06.i", "each-mode-compiled-once-and-appended:%s" % tag, ok, "push(%s) of try_from_scanner_mode(%s)" % (S.fstr(pu[0][3][1])[:60], item[:40]), fn.loc())
+                okp = ("field", ("downcast", cm[0][4], "Ok"), "0")
+                appended = [x[3][1] for x in pu] + [e[2] for e in ci]
+                ok = len(cm) == 1 and len(appended) == 1 and appended[0] == okp and "item@" in item
+                ctx.ob("C06.i", "each-mode-compiled-once-and-appended:%s" % tag, ok, "appends %s of try_from_scanner_mode(%s)" % ([S.fstr(a)[:60] for a in appended], item[:40]), fn.loc())
             if p.end[0] == "return" and variant_of(ex, p, p.end[1]) == "Ok":
                 r = p.end[1]
                 inner = r[3][0] if r[0] == "adt" and r[3] else None
-                okr = inner is not None and inner[0] == "adt" and len(inner[3]) >= 2 and "with_capacity" in S.fstr(inner[3][1]) or (inner is not None and inner[0] == "adt" and re.search(r"Vec::(new|with_capacity)", S.fstr(inner[3][1])) is not None)
+                okr = inner is not None and inner[0] == "adt" and len(inner[3]) >= 2 and "with_capacity" in S.fstr(inner[3][1]) or (inner is not None and inner[0] == "adt" and (re.search(r"Vec::(new|with_capacity)", S.fstr(inner[3][1])) is not None or S.mentions(inner[3][1], lambda x: x[0] == "app" and "Iterator>::collect" in str(x[1]))))
                 ctx.ob("C06.i", "compiled-modes-stored-as-built:%s" % tag, bool(okr), "ScannerImpl.scanner_modes := %s" % (S.fstr(inner[3][1])[:80] if inner is not None and inner[0] == "adt" else None), fn.loc())
         ctx.floor("C06.i", "loop iterations compiling a mode (%s)" % tag, n_iter, 1)
 
@@ -157,7 +159,7 @@ def compiled_mode_rules(ctx, rule="C06.h"):
     nw = F.fn(r"scanner_mode::ScannerMode::new$")
     ctx.analysed_fn(nw)
     calls = [M.call_name(t) for bb, t in nw.calls()]
-    bad = [c for c in calls if re.search(r"Iterator>::(rev|skip|take|filter|step_by|skip_while|take_while)|sort|dedup|reverse|retain", c) and "windows" not in c]
+    bad = [c for c in calls if re.search(r"Iterator>::(rev|skip|take|filter|step_by|skip_while|take_while)\b|::(sort\w*|dedup\w*|reverse|retain)$", c) and "windows" not in c]
     ctx.ob(rule, "ScannerMode::new-keeps-the-given-transitions", not bad, "reordering/filtering calls in ScannerMode::new: %s" % [M.short_name(c) for c in bad], nw.loc())
     for c in F.closures_of(nw):
         if c.argc == 2 and len(c.j["locals"]) > 2 and "(usize, usize)" in c.j["locals"][2]["ty"]:
